@@ -229,7 +229,7 @@ def FullStatement_perm_definitions_all (s : SchemaD) (fx : Fixes) (d d' : Doc) :
 /-- **perm_definitions for 25 of the 26 rules** (all but OverlappingFieldsCanBeMerged): code of /repo HEAD; documents
     with unique non-empty fragment names, unique operation keys and unique variable names per operation (each hypothesis
     is needed by one or two rules only, see the per-rule theorems; without them the code's verdict DOES depend on the
-    order: "the last definition wins") -/
+    order: "the last definition wins") [ALONE-RUN statement, rule by rule: each rule visitor in a chain of its own; for the verdict of the chain `validate_ast` runs see `Props/C06_chain.lean: chainM_six_transformations`.] -/
 theorem perm_definitions_all25_partial (s : SchemaD) (fx : Fixes) (hfx : HeadVars fx) {d d' : Doc}
     (h : d.defs.Perm d'.defs) (hnd : Spec.uniqueFragmentNames d) (hne : NamesNonEmpty d) (hk : Spec.uniqueOpKeys d)
     (hv : Spec.uniqueVariableNames d) (r : Rule) (hr : r ≠ .overlappingFieldsCanBeMerged) :
